@@ -8,8 +8,8 @@ sys.path.insert(0, os.path.join(fw.VERIF, 'harness', 'oracles'))
 import osc10
 
 TITLE = 'OSC encoding round-trips, conforms to OSC 1.0 and is sized correctly'
-TRANSLATED = []
-MODEL_TARGETS = ['model/Osc.vo', 'model/OscSize.vo', 'model/OscCheck.vo']
+TRANSLATED = ['Gen_size']
+MODEL_TARGETS = ['model/Osc.vo', 'model/OscSize.vo', 'model/OscCheck.vo', 'gen/Gen_size.vo']
 ALLOWED_AXIOMS = []
 TRUSTED = [
     'hand-written models coq/model/Osc.v (sc3/base/_osclib.py, _oscinterface.py:_build_msg/_build_bundle) and '
@@ -81,9 +81,16 @@ def pyval(t):
 
 def show(t):
     """short Python-like text of a tree, for messages"""
-    v = pyval(t)
-    r = repr(v)
-    return r if len(r) < 400 else r[:400] + '...'
+    def r(t):
+        if isinstance(t, list):
+            return '[' + ', '.join(r(x) for x in t) + ']'
+        if isinstance(t, dict) and 'z' in t:
+            return 'bytes(%d)' % t['z']
+        if isinstance(t, dict) and 'o' in t:
+            return '<%s>' % t['o']
+        return repr(pyval(t))
+    s = r(t)
+    return s if len(s) < 400 else s[:400] + '...'
 
 
 # ---------------------------------------------------------------------------
@@ -449,7 +456,12 @@ def correspond(ctx):
     cases.extend(build_cases(ctx))
     ccases = clump_cases(ctx)
     allc = cases + ccases
-    out = ctx.impl('c06_osc', {'cases': allc}, timeout=900)['out']
+    res = ctx.impl('c06_osc', {'cases': allc}, timeout=900)
+    out = res['out']
+    if res.get('init_error'):
+        c.failures.append(Failure('correspondence', "sc3.init('nrt') raises " + res['init_error'],
+                                  signature='C06:init', replay={'call': "sc3.init('nrt')", 'observed': res['init_error'], 'expected': 'no exception'},
+                                  found_input=True))
 
     b_items, b_idx, s_items, s_idx, p_items, p_idx, k_items, k_idx = [], [], [], [], [], [], [], []
     dgrams = []
@@ -491,6 +503,9 @@ def correspond(ctx):
     # parser stream: the library's own datagrams, damaged ones, hand-written ones
     rng = ctx.rng
     pcases = [{'kind': 'parse', 'dgram': d.hex()} for d in HAND_DGRAMS]
+    pcorpus = os.path.join(fw.VERIF, 'corpus', 'C06_dgrams.json')
+    if os.path.exists(pcorpus):
+        pcases.extend({'kind': 'parse', 'dgram': d} for d in json.load(open(pcorpus)))
     for _ in range(ctx.n(300, 4000)):
         if dgrams:
             d = rng.choice(dgrams)
@@ -508,6 +523,19 @@ def correspond(ctx):
             c.nontriv(('p', k['dgram']))
         p_items.append('(%s, %s)' % (cb(bytes.fromhex(k['dgram'])), coq_parse_expected(pr)))
         p_idx.append(('dgram', k['dgram']))
+
+    # values outside the model's argument language that cannot be represented: must be refused
+    rcases = [{'kind': 'msg', 'v': [S('/x'), Fl(1e39)], 'itf': 'nrt'}, {'kind': 'msg', 'v': [S('/x'), I(1), Fl(-1e300)], 'itf': 'base'},
+              {'kind': 'msg', 'v': [S('/x'), S('a\ud800')], 'itf': 'nrt'}, {'kind': 'msg', 'v': [S('/\udfff'), I(1)], 'itf': 'nrt'},
+              {'kind': 'msg', 'v': [S('/x'), [S('/y'), Fl(1e39)]], 'itf': 'nrt'},
+              {'kind': 'bundle', 'v': [Fl(0.2), [S('/x'), S('\ud800')]], 'itf': 'base'}]
+    rout = ctx.impl('c06_osc', {'cases': rcases})['out']
+    for k, o in zip(rcases, rout):
+        c.evaluations += 1
+        c.count('refusal-only:' + (o.get('build', ['?', '?', '?'])[2] if o.get('build', ['ok'])[0] == 'err' else 'ACCEPTED'))
+        if o.get('build', ['ok'])[0] != 'err':
+            c.failures.append(Failure('correspondence', 'a value that cannot be represented was accepted for sending: %r' % (k['v'],),
+                                      signature='C06:unrepresentable_accepted', replay={'case': k, 'impl': o.get('build')}, found_input=True))
 
     # _strpad4 on a range
     ns = list(range(0, 70)) + [rng.randrange(0, 70000) for _ in range(60)] + [65500, 65501, 65502, 65503, 65504]
@@ -618,7 +646,8 @@ def same_arg(d, e):
 def probe_trees(ctx):
     """boundary-biased inputs, smallest first"""
     rng = ctx.rng
-    ts = []
+    ts = [('msg', [S('/x')]), ('msg', [S('/abc')]), ('msg', [S('/x'), S('')]), ('msg', [S('/x'), S('abcd')]),
+          ('msg', [S('/x'), None, True, False, [], I(-1), Fl(1.5)]), ('bundle', [Fl(0.2), [S('/x'), I(1)]])]
     for n in range(1, 18):
         ts.append(('msg', [S('/x'), Y(b'a' * n)]))
     ts += [('msg', [S('/x'), S('é')]), ('msg', [S('/x'), S('éééé')]), ('msg', [S('/x'), S('\U0001d11e\U0001d11e')]),
@@ -638,6 +667,12 @@ def probe_trees(ctx):
         t, kind = malform(rng, base)
         ts.append(('msg', t))
     return ts
+
+
+def has_nul_str(v):
+    if isinstance(v, str):
+        return '\x00' in v
+    return isinstance(v, list) and any(has_nul_str(x) for x in v)
 
 
 def has_noslash(v):
@@ -685,7 +720,7 @@ def search(ctx, failures):
         except osc10.Osc10Error as e:
             ok, why, dec = False, 'is not OSC 1.0: %s' % e, None
         if not ok:
-            nul = '\\x00' in show(k['v'])
+            nul = has_nul_str(v)
             report('C06:nul_in_string_altered' if nul else 'C06:roundtrip',
                    'accepted for sending, but the datagram %s: %s -> %r' % (why, show(k['v']), dgram[:120]),
                    {'probe': 'roundtrip', 'case': k, 'dgram': dgram.hex(), 'decoded': repr(dec)[:600], 'expected': repr(exp)[:600],
